@@ -16,9 +16,18 @@ namespace nmtools::index
     struct compress_t {};
 
     template <typename condition_t, typename shape_t, typename axis_t>
-    constexpr auto shape_compress(const condition_t& condition, const shape_t& shape, [[maybe_unused]] const axis_t axis)
+    constexpr auto shape_compress(const condition_t& condition, const shape_t& shape, [[maybe_unused]] const axis_t axis_)
     {
         using return_t = meta::resolve_optype_t<shape_compress_t,condition_t,shape_t,axis_t>;
+        // a negative axis counts from the last axis (as in numpy)
+        [[maybe_unused]] const auto axis = [&](){
+            if constexpr (is_none_v<axis_t>) {
+                return axis_;
+            } else {
+                const auto a = static_cast<nm_index_t>(axis_);
+                return (a < 0) ? static_cast<nm_index_t>(a + static_cast<nm_index_t>(len(shape))) : a;
+            }
+        }();
 
         auto res = return_t{};
 
@@ -79,9 +88,18 @@ namespace nmtools::index
     } // shape_compress
 
     template <typename indices_t, typename condition_t, typename shape_t, typename axis_t>
-    constexpr auto compress(const indices_t& indices, const condition_t& condition, const shape_t& shape, axis_t axis)
+    constexpr auto compress(const indices_t& indices, const condition_t& condition, const shape_t& shape, [[maybe_unused]] axis_t axis_)
     {
         using return_t = meta::resolve_optype_t<compress_t,indices_t,condition_t,shape_t,axis_t>;
+        // a negative axis counts from the last axis (as in numpy)
+        [[maybe_unused]] const auto axis = [&](){
+            if constexpr (is_none_v<axis_t>) {
+                return axis_;
+            } else {
+                const auto a = static_cast<nm_index_t>(axis_);
+                return (a < 0) ? static_cast<nm_index_t>(a + static_cast<nm_index_t>(len(shape))) : a;
+            }
+        }();
         static_assert (!meta::is_void_v<return_t>
             , "unsupported index::compress, couldn't deduce return type");
 
